@@ -378,6 +378,18 @@ def render_piece(t, st):
             if e is not None:
                 st.used.add("superscript")
                 return Piece(left[1] + e.translate(_SUP), POW, "name", "sup")
+        if form == "sup" and left[0] != "u":
+            # superscript directly after a parenthesised group: "(m/s)²"   (main-agent addition after
+            # seeded change C07-2; the independent reader accepts a superscript after any atom)
+            e = None
+            if right[0] == "n" and right[1].isdigit():
+                e = right[1]
+            elif right[0] == "neg" and right[1][0] == "n" and right[1][1].isdigit():
+                e = "-" + right[1][1]
+            if e is not None and left[0] != "n":
+                b = _wrap(render_piece(left, st), st)
+                st.used.add("superscript-after-group")
+                return Piece(b.s + e.translate(_SUP), POW, "paren", "sup")
         if form == "sup":
             form = "^" if st.pw != "rand" else st.rng.choice(("**", "^"))
         b = _need(render_piece(left, st), ATOM, st)
